@@ -135,6 +135,7 @@ class Spec:
         self.desc = None
         self.query = self.mutation = self.subscription = None
         self.types, self.directives = [], []
+        self.std_overrides = []   # own definitions of specified directives (@skip, @deprecated, ...)
 
     def type(self, name):
         for t in self.types:
@@ -146,9 +147,11 @@ class Spec:
 class _G:
     """One generation run."""
 
-    def __init__(self, rng, size=2, adversarial=True, directive_deprecation=False, plain_names=False):
+    def __init__(self, rng, size=2, adversarial=True, directive_deprecation=False, plain_names=False,
+                 override_specified=False):
         self.rng, self.size, self.adv = rng, size, adversarial
         self.dir_depr = directive_deprecation
+        self.override_specified = override_specified
         self.used = set(BUILTIN_SCALARS) | {"Query", "Mutation", "Subscription"}
         self.plain_names = plain_names
         self.counter = 0
@@ -435,12 +438,61 @@ class _G:
             d = Directive(n, locs[:k(1, 4)], self.args(spec, 3), rng.random() < 0.4, self.text(),
                           self.reason(0.3) if self.dir_depr else None)
             spec.directives.append(d)
+        if self.override_specified:
+            spec.std_overrides = self.overrides(spec)
         # final type order
         order = scalars + enums + inputs + ifaces + unions + all_objs
         if rng.random() < 0.7:
             rng.shuffle(order)
         spec.types = order
         return spec
+
+    def overrides(self, spec):
+        """The schema's own definitions of some specified directives (build_schema and GraphQLSchema accept
+        them; print_schema never shows a directive carrying a specified name).  They stay compatible with every
+        use the generated SDL makes of them."""
+        rng = self.rng
+        used = set()
+        for t in spec.types:
+            for f in t.fields:
+                if f.depr is not None:
+                    used.add("FIELD_DEFINITION")
+                if any(a.depr is not None for a in f.args):
+                    used.add("ARGUMENT_DEFINITION")
+            if any(a.depr is not None for a in t.inputs):
+                used.add("INPUT_FIELD_DEFINITION")
+            if any(v.depr is not None for v in t.values):
+                used.add("ENUM_VALUE")
+        for d in spec.directives:
+            if d.depr is not None:
+                used.add("DIRECTIVE_DEFINITION")
+            if any(a.depr is not None for a in d.args):
+                used.add("ARGUMENT_DEFINITION")
+        names = ["skip", "include", "deprecated", "specifiedBy", "oneOf"]
+        rng.shuffle(names)
+        out = []
+        for n in names[:rng.randint(1, 3)]:
+            if n in ("skip", "include"):
+                locs = [l for l in ("FIELD", "FRAGMENT_SPREAD", "INLINE_FRAGMENT") if rng.random() < 0.6] or ["FIELD"]
+                if rng.random() < 0.3:
+                    locs.append(rng.choice(["QUERY", "FRAGMENT_DEFINITION", "VARIABLE_DEFINITION"]))
+                rng.shuffle(locs)
+                out.append(Directive(n, locs, [Arg("if", NN(N("Boolean")), None, self.text(0.4))],
+                                     rng.random() < 0.15, self.text(0.8)))
+            elif n == "deprecated":
+                locs = sorted(used) + [l for l in ("FIELD_DEFINITION", "ARGUMENT_DEFINITION", "INPUT_FIELD_DEFINITION",
+                                                     "ENUM_VALUE") if l not in used and rng.random() < 0.4]
+                locs = locs or ["FIELD_DEFINITION", "ENUM_VALUE"]   # the legacy definition
+                rng.shuffle(locs)
+                ty = N("String") if rng.random() < 0.6 else NN(N("String"))
+                out.append(Directive(n, locs, [Arg("reason", ty, ("v", "No longer supported"), self.text(0.4))],
+                                     False, self.text(0.8)))
+            elif n == "specifiedBy":
+                out.append(Directive(n, ["SCALAR"], [Arg("url", NN(N("String")), None, self.text(0.4))], False,
+                                     self.text(0.9)))
+            else:
+                out.append(Directive(n, ["INPUT_OBJECT"], [], False, self.text(0.9) or "own oneOf"))
+        return out
 
     def inherit(self, spec, t, tweak=True):
         """Copy the fields of every implemented interface (covariant tweaks, extra optional args)."""
@@ -490,8 +542,8 @@ def has_skip(v):
     return False
 
 
-def gen_spec(rng, size=2, adversarial=True, directive_deprecation=False):
-    return _G(rng, size, adversarial, directive_deprecation).build()
+def gen_spec(rng, size=2, adversarial=True, directive_deprecation=False, override_specified=False):
+    return _G(rng, size, adversarial, directive_deprecation, override_specified=override_specified).build()
 
 
 # --------------------------------------------------------------------------- spec -> SDL
@@ -611,6 +663,7 @@ def spec_to_defs(spec):
     out = []
     if needs_schema_block(spec):
         out.append(schema_block_sdl(spec))
+    out += [directive_sdl(d) for d in spec.std_overrides]
     out += [directive_sdl(d) for d in spec.directives]
     out += [type_sdl(t) for t in spec.types]
     return out
@@ -717,14 +770,16 @@ def spec_to_schema(spec, rng):
                 description=t.desc)
         else:
             objs[t.name] = GraphQLUnionType(t.name, (lambda t=t: [objs[m] for m in t.members]), description=t.desc)
-    dirs = [GraphQLDirective(d.name, [DirectiveLocation[x] for x in d.locs], args=mk_args(d.args),
-                             is_repeatable=d.repeatable, description=d.desc, deprecation_reason=d.depr)
-            for d in spec.directives]
+    mk_dir = lambda d: GraphQLDirective(d.name, [DirectiveLocation[x] for x in d.locs], args=mk_args(d.args),
+                                        is_repeatable=d.repeatable, description=d.desc, deprecation_reason=d.depr)
+    dirs = [mk_dir(d) for d in spec.directives]
+    own = {d.name: mk_dir(d) for d in spec.std_overrides}   # the schema's own @skip, @deprecated, ...
+    std_dirs = [own.get(d.name, d) for d in specified_directives]
     r = rng.random()
     if r < 0.5:
-        directives = list(specified_directives) + dirs
+        directives = std_dirs + dirs
     else:
-        directives = dirs + list(specified_directives)
+        directives = dirs + std_dirs
     return GraphQLSchema(
         query=objs[spec.query] if spec.query else None,
         mutation=objs[spec.mutation] if spec.mutation else None,
@@ -790,6 +845,9 @@ def dump(schema):
         "std_types": sorted(n for n in schema.type_map if is_std_type_name(n)),
         "directives": [dump_directive(d) for d in schema.directives if not is_specified_directive(d)],
         "specified_directives": sorted(d.name for d in schema.directives if is_specified_directive(d)),
+        # full definitions of the directives carrying a specified name (a schema may define its own)
+        "specified_directive_defs": sorted((dump_directive(d) for d in schema.directives if is_specified_directive(d)),
+                                           key=lambda x: x["name"]),
     }
 
 
@@ -1045,8 +1103,20 @@ def _w_inputs_ast(nodes, depr):
     return out
 
 
-def w_defs(document):
-    """Parsed SDL document -> wire list of definitions (the model's `definition` type)."""
+SPECIFIED_NAMES = ("skip", "include", "deprecated", "specifiedBy", "oneOf")
+
+
+def w_defs(document, drop_specified=False):
+    """Parsed SDL document -> wire list of definitions (the model's `definition` type).
+    drop_specified: leave out definitions of directives carrying a specified name (the schema encoding used with it
+    leaves those directives out as well: the implementation passes them through unmapped and never prints them)."""
+    if drop_specified:
+        keep = [d for d in document.definitions
+                if not (d.kind == "directive_definition" and d.name.value in SPECIFIED_NAMES)]
+        if len(keep) != len(document.definitions):
+            class _Doc:
+                definitions = keep
+            document = _Doc
     from graphql.utilities.extend_schema import get_deprecation_reason as depr, get_specified_by_url, is_one_of
     opk = {"query": 0, "mutation": 1, "subscription": 2}
     out = [len(document.definitions)]
